@@ -368,6 +368,19 @@ func RunCaseOpts(c *Case, pick func(n int) int, o RunOpts) *Result {
 		case <-time.After(2 * time.Second):
 		}
 	}
+	if c.WaitAtEnd && !res.Wedged {
+		if st, _ := w.Status(); isTerminal(st) {
+			cr := r.Call("wait", func(ctx context.Context) error { return w.Engine().WaitPipeline(PipelineID) })
+			for deadline := time.Now().Add(Quiet); time.Now().Before(deadline); time.Sleep(200 * time.Microsecond) {
+				r.mu.Lock()
+				done := cr.Returned
+				r.mu.Unlock()
+				if done {
+					break
+				}
+			}
+		}
+	}
 	res.StartErr = start.err
 	res.FinalStatus, res.FinalErr = w.Status()
 	r.mu.Lock()
